@@ -288,6 +288,8 @@ pub struct Tr<'a> {
     ptr_alias: HashMap<String, (String, Ty)>,
     /// generic parameters bounded by `Pattern` / `BytesPattern`: modelled as the pattern's bytes
     pattern_generics: Vec<String>,
+    /// generic parameters replaced by concrete types (witness-arm targets)
+    type_subst: HashMap<String, Ty>,
 }
 
 fn ind(lines: Vec<String>, n: usize) -> Vec<String> {
@@ -387,6 +389,9 @@ impl<'a> Tr<'a> {
                     "PhantomData" => Ty::Unit,
                     "PatternNorm" => Ty::Slice(Box::new(Ty::Int(IntTy::U8))),
                     _ => {
+                        if let Some(t) = self.type_subst.get(&name) {
+                            return t.clone();
+                        }
                         if self.pattern_generics.contains(&name) {
                             Ty::Slice(Box::new(Ty::Int(IntTy::U8)))
                         } else if self.generics.contains(&name) {
@@ -451,7 +456,10 @@ impl<'a> Tr<'a> {
                             continue;
                         }
                         args.push(' ');
-                        args.push_str(&p.ident.to_string());
+                        match self.type_subst.get(&p.ident.to_string()) {
+                            Some(t) => args.push_str(&self.lean_ty(t)?),
+                            None => args.push_str(&p.ident.to_string()),
+                        }
                     }
                     for p in g.const_params() {
                         args.push(' ');
